@@ -17,8 +17,8 @@ CLAIMS = {
    "CBMC decides that one-character texts merge exactly when they sit at consecutive display columns (double-width = 2), that the merged text starts at the left cell, and that the anchor lies strictly inside the start cell.",
    "StringBuffer/CellBuffer construction, the concatenated content of merged text (format! stubbed) and the quoted-text channel are outside the claim."),
  "C05": ("kani-bmc", "§4 C05",
-   "CBMC decides soundness (an endorsed rect has exactly its four lines as sides) and completeness (every closed box, all sizes/offsets/orders in bounds) of endorse_rect on symbolic lattice lines.",
-   "Bounded-capacity Vec stubs; that the span pipeline delivers the four sides as one contact group is outside the claim; rounded rects: see evidence."),
+   "CBMC decides soundness (an endorsed rect has exactly its four lines as sides: no ladder, overhang or T) and completeness (every closed box within the stated sizes/offsets/orders) of endorse_rect on symbolic lattice lines, and completeness of endorse_rounded_rect on the 4 sides + 4 quarter arcs of a rounded box.",
+   "Bounded-capacity Vec stubs, powf stubbed by exact square; that the span pipeline delivers the sides as one contact group, and soundness of the ROUNDED variant (is_rounded_rect checks perpendicularity only), are outside the claim."),
  "C06": ("kani-bmc", "§4 C06",
    "Relational harnesses: each float predicate and each absolute_position/localize gives the same answer (resp. the answer shifted) when the lattice inputs are shifted by (k,n) cells, k,n symbolic in bounds.",
    "Kernel level only: composition through the pipeline and the circle catalogue (Lazy) are outside the claim."),
@@ -29,7 +29,7 @@ CLAIMS = {
    "CBMC decides that a merged run of k cells merges with the next cell's segment into the exact hull (k symbolic, 4 direction families), that can_merge is exactly collinear-and-touching on the lattice, and that the generic merge loop ends in a pairwise-unmergeable state; z3 decides that every run character emits its full-cell segment.",
    "Induction over k and the composition are argued; the generic merge loop is verified on a cheap instantiation (integer intervals)."),
  "C10": ("kani-bmc", "§4 C10",
-   "CBMC decides: cell adjacency = Chebyshev<=1; one span-merge step joins exactly adjacent spans; the generic merge loop reaches a fixpoint preserving the union; one containment-tree step adds a fragment exactly once; can_fit = bbox containment.",
+   "CBMC decides: cell adjacency = Chebyshev<=1; one span-merge step joins exactly adjacent spans (1- and 2-cell spans); the generic merge loop reaches a fixpoint preserving the union; one containment-tree step on a single shape adds a fragment exactly once; can_fit = bbox containment.",
    "Kernel level: the multiset equality of whole renderings is argued from these lemmas."),
  "C11": ("kani-bmc", "§4 C11",
    "CBMC decides for every fragment type that scale multiplies every coordinate/radius/rx by the factor and nothing else (scales with <=8 significant bits: all products exact), and that canvas size is linear in scale with an 8x16 default cell.",
@@ -41,8 +41,8 @@ CLAIMS = {
    "z3 decides over all neighbourhoods: arrowheads fire only with a line on their tail side and have tip/base geometry as stated; corner arcs in box outlines are continuous and bulge outward; bullets become the documented circle exactly when attached. CBMC decides merge_circle yields a marker line ending at the bullet centre.",
    "Polygon->marker merging is commented out in svgbob; path rendering is outside the claim."),
  "C16": ("kani-bmc", "§4 C16",
-   "Tags half only: one containment-tree step gives a {tag} to the innermost enclosing rect, adds no node, and leaves an unenclosed tag alone; identifier characters are attribute-safe.",
-   "as_css_tag is stubbed (pom); the legend grammar half is not decided."),
+   "Tags half only, single shape: one containment-tree step gives a {tag} to a rect exactly when the rect's bounding box contains the carrier, adds no node for it (it is not rendered), adds ordinary content exactly once and leaves an unenclosed fragment alone, for every carrier position; can_fit = bounding-box containment; identifier characters are attribute-safe.",
+   "as_css_tag is stubbed (pom; a designated rect is the tag carrier). NOT decided: that nested shapes give the tag to the INNERMOST one (the nested step ran out of memory; kept in the thorough tier only), the legend grammar half, the tag grammar."),
 }
 
 NA = {
